@@ -88,6 +88,12 @@ MODEL_ATTRS_MATRIX = ("_degree", "_variables", "_num_binary_variables", "_name")
 def make_param(eng, kind, hint):
     if kind == "termdict":
         return eng.alloc(DictVal(FO.base(eng, T.Key, T.Real, hint), pyclass="dict"))
+    if kind.startswith("cmodel:"):
+        # a constrained model whose recorded constraints are arbitrary lists (one per relation)
+        from . import enumth as EN
+        o = make_model(eng, kind.split(":", 1)[1], hint)
+        o.attrs["_constraints"] = {k: EN.new_clist(eng, "%s_%s" % (hint, k)) for k in ("eq", "ne", "lt", "le", "gt", "ge")}
+        return o
     if kind.startswith("model:"):
         return make_model(eng, kind.split(":", 1)[1], hint)
     if kind.startswith("newmodel:"):
@@ -121,6 +127,9 @@ def make_param(eng, kind, hint):
         return eng.fresh_optrid(hint)
     if kind == "slice":
         return SV(None, "slice")
+    if kind.startswith("sol:"):
+        from . import solth as SO
+        return SO.make(eng, kind[4:], hint)
     if kind in ("asgpred", "asgfun"):
         from . import enumth as EN
         return EN.param_fn(eng, "valid" if kind == "asgpred" else "value", hint)
@@ -163,6 +172,10 @@ def value_matches_kind(eng, v, kind):
         return isinstance(v, DictVal) and v.ver.ksort == T.Key or (isinstance(v, dict) and not v)
     if kind == "emptydict":
         return isinstance(v, dict) and not v
+    if kind.startswith("cmodel:"):
+        from . import enumth as EN
+        return isinstance(v, PObj) and v.cls.name == kind.split(":", 1)[1] and \
+            all(isinstance(x, EN.CList) for x in (v.attrs.get("_constraints") or {"": None}).values())
     if kind.startswith("model:") or kind.startswith("newmodel:"):
         return isinstance(v, PObj) and v.cls.name == kind.split(":", 1)[1]
     if kind == "real":
@@ -199,6 +212,9 @@ def value_matches_kind(eng, v, kind):
         return isinstance(v, SV) and v.t == "slice"
     if kind == "rid":
         return isinstance(v, SV) and v.t == "rid"
+    if kind.startswith("sol:"):
+        from . import solth as SO
+        return isinstance(v, SO.SolVal) and v.view is None and v.container == kind[4:]
     if kind in ("asgpred", "asgfun"):
         from . import enumth as EN
         return isinstance(v, EN.AbstractFn) and v.kind == ("valid" if kind == "asgpred" else "value")
